@@ -340,7 +340,10 @@ def _frames_roundtrip():
     import io
     import json
     from fortls.jsonrpc import JSONRPC2Connection, ReadWriter
-    payloads = [{"a": 1}, {"t": "é中\U0001F600", "p": "/tmp/ü x%#?"}, [], "x", {"n": None}]
+    # the long texts put a multi-byte character across every power-of-two byte offset up to 64 KiB (a reader that
+    # decodes the body piecewise would split one), with 1-, 2-, 3- and 4-byte characters
+    payloads = [{"a": 1}, {"t": "é中\U0001F600", "p": "/tmp/ü x%#?"}, [], "x", {"n": None},
+                {"text": "aé" * 30000}, {"text": "中" * 25000 + "x" + "中" * 25000}, {"text": "ab\U0001F600" * 20000}]
     # writer side
     for p in payloads:
         out = io.BytesIO()
